@@ -2,23 +2,24 @@
 usage: try_seed.py <name> <pid> [<pid> ...]     (records the outcome in seeded/<name>/meta.json)"""
 import json, os, subprocess, sys, time
 name, pids = sys.argv[1], sys.argv[2:]
+REPO = os.environ.get("SEED_REPO", "/repo")  # a scratch worktree of /repo may be used instead (checks are bound to it with BPMC_REPO)
 dst = os.path.join("/verif/seeded", name)
 patch = os.path.join(dst, "patch.diff")
-assert subprocess.run(["git", "-C", "/repo", "status", "--porcelain"], capture_output=True, text=True).stdout.strip() == "", "/repo not clean"
-subprocess.run(["git", "-C", "/repo", "apply", patch], check=True)
+assert subprocess.run(["git", "-C", REPO, "status", "--porcelain"], capture_output=True, text=True).stdout.strip() == "", REPO + " not clean"
+subprocess.run(["git", "-C", REPO, "apply", patch], check=True)
 out = {}
 try:
     for pid in pids:
         t = time.time()
         r = subprocess.run(["/venv/bin/python", "-m", "bpmc.run", pid, "--tier", "quick"], cwd=os.environ.get("VERIF_DIR", "/verif"), capture_output=True, text=True,
-                           env=dict(os.environ, VERIF_SEED=os.environ.get("VERIF_SEED", "0")))
+                           env=dict(os.environ, VERIF_SEED=os.environ.get("VERIF_SEED", "0"), BPMC_REPO=REPO))
         viol = [l for l in r.stdout.splitlines() if l.startswith("VIOLATION")]
         notes = [l for l in r.stdout.splitlines() if l.startswith("  #")]
         out[pid + os.environ.get('SEED_LABEL', '')] = dict(exit=r.returncode, violations=len(viol), first=(notes[0][:300] if notes else ""), wall=round(time.time() - t, 1))
         print(name, pid, "exit", r.returncode, "violations", len(viol), (" | ".join(n[:160] for n in notes[:3])))
 finally:
-    subprocess.run(["git", "-C", "/repo", "checkout", "--", "."], check=True)
-    subprocess.run(["git", "-C", "/repo", "clean", "-fdq", "--", "compiler", "lib"], check=False)
+    subprocess.run(["git", "-C", REPO, "checkout", "--", "."], check=True)
+    subprocess.run(["git", "-C", REPO, "clean", "-fdq", "--", "compiler", "lib"], check=False)
 mp = os.path.join(dst, "meta.json")
 meta = json.load(open(mp))
 meta.setdefault("detection", {}).update(out)
